@@ -28,9 +28,25 @@ type c14rCase struct {
 	Procs   int   `json:"gomaxprocs"`
 	Noise   int   `json:"noise"`
 	Seed    int64 `json:"seed"`
+	// big variant: thousands of entries, and every ShrinkEvery-th round the maximum is lowered by thousands at once
+	// (restored in the next round), so that a single maintenance run has to evict thousands of entries
+	ShrinkEvery int `json:"shrink_every,omitempty"`
 }
 
 func genC14R(t *rapid.T) c14rCase {
+	if rapid.IntRange(0, 7).Draw(t, "big") == 0 {
+		m := rapid.IntRange(1100, 4000).Draw(t, "bigmax")
+		return c14rCase{
+			Max:         m,
+			Writers:     rapid.IntRange(2, 8).Draw(t, "writers"),
+			Ops:         rapid.IntRange(200, 700).Draw(t, "bigops"),
+			Rounds:      rapid.IntRange(6, 14).Draw(t, "bigrounds"),
+			Keys:        2 * m,
+			Procs:       pick(t, "procs", 16, 8, 4, 2),
+			Seed:        rapid.Int64().Draw(t, "seed"),
+			ShrinkEvery: rapid.IntRange(2, 4).Draw(t, "shrinkevery"),
+		}
+	}
 	return c14rCase{
 		Max:     rapid.IntRange(1, 8).Draw(t, "max"),
 		Writers: rapid.IntRange(2, 8).Draw(t, "writers"),
@@ -63,10 +79,23 @@ func runC14R(c c14rCase) (o outcome) {
 	})
 	defer cache.StopAllGoroutines()
 	var valCtr atomic.Int64
-	sawBusy := 0
+	sawBusy, bigShrinks := 0, 0
+	curMax := c.Max
 	for r := 0; r < c.Rounds; r++ {
 		var start, done sync.WaitGroup
 		start.Add(1)
+		if c.ShrinkEvery > 0 {
+			// the call itself runs the maintenance that has to evict down to the new maximum
+			if r%c.ShrinkEvery == c.ShrinkEvery-1 {
+				if cache.EstimatedSize() > 1000+c.Max/20 {
+					bigShrinks++
+				}
+				curMax = 1 + int(uint64(c.Seed)%97)
+			} else {
+				curMax = c.Max
+			}
+			cache.SetMaximum(uint64(curMax))
+		}
 		for w := 0; w < c.Writers; w++ {
 			done.Add(1)
 			go func(w int) {
@@ -102,8 +131,8 @@ func runC14R(c c14rCase) (o outcome) {
 			o.Err = fmt.Errorf("round %d: stranded maintenance: all cache calls returned and every goroutine the cache started finished, but %d write event(s) are still in the write buffer (drain status %d)", r, wb, st)
 		case st != 0:
 			o.Err = fmt.Errorf("round %d: stranded maintenance: at quiescence the drain status is %d (0=idle 1=required 2/3=processing) with an empty write buffer", r, st)
-		case sz > c.Max:
-			o.Err = fmt.Errorf("round %d: at quiescence %d entries are present, maximum is %d (the size bound was not restored without a further call)", r, sz, c.Max)
+		case sz > curMax:
+			o.Err = fmt.Errorf("round %d: at quiescence %d entries are present, maximum is %d (the size bound was not restored without a further call)", r, sz, curMax)
 		case a != d:
 			o.Err = fmt.Errorf("round %d: at quiescence %d removals were reported atomically but %d OnDeletion notifications were delivered", r, a, d)
 		}
@@ -112,6 +141,9 @@ func runC14R(c c14rCase) (o outcome) {
 		}
 	}
 	o.NonTrivial = sawBusy > 0
+	if bigShrinks > 0 {
+		o.Classes = append(o.Classes, "maximum-lowered-by-thousands")
+	}
 	if sawBusy > 0 {
 		o.Classes = append(o.Classes, "calls-returned-while-maintenance-was-running")
 	}
@@ -122,7 +154,7 @@ func runC14R(c c14rCase) (o outcome) {
 func TestC14_S4Rounds(t *testing.T) {
 	propMain(t, propSpec[c14rCase]{
 		Prop: "C14", Test: "S4Rounds",
-		Rule: "free-running: 200-3000 short rounds on one MaximumSize 1..8 cache with Options.Executor nil (the default executor is wrapped so that its goroutines can be joined): 2-8 writers released together perform 1-4 operations each (Set, SetIfAbsent, Invalidate, GetIfPresent over 2-40 keys), GOMAXPROCS 2-16, optional yields at the hook points; " +
+		Rule: "free-running: 200-3000 short rounds on one MaximumSize 1..8 cache with Options.Executor nil (the default executor is wrapped so that its goroutines can be joined): 2-8 writers released together perform 1-4 operations each (Set, SetIfAbsent, Invalidate, GetIfPresent over 2-40 keys), GOMAXPROCS 2-16, optional yields at the hook points; an eighth of the cases use a cache of 1100-4000 entries, hundreds of operations per writer and lower the maximum by thousands every few rounds; " +
 			"after every round, once every call has returned and every cache-started goroutine has finished and before any further cache call: drain status idle, write buffer empty, EstimatedSize <= maximum, #OnDeletion == #OnAtomicDeletion; non-trivial = in some round the calls returned while maintenance was still running on the executor",
 		Assumptions: []string{"schedules are sampled by the Go runtime, not enumerated", "liveness is judged as 'the quiescent state has no pending work'"},
 		Gen:         genC14R, Run: runC14R,
